@@ -452,6 +452,35 @@ func (m *mon) checkBlock(b *corpus.Block, x []byte, tree *cborx.Node, vname stri
 	m.done(j, true)
 }
 
+
+// reuse decodes `first` and then `second` into ONE freshly allocated object of
+// obj's concrete type (touching the lazily computed identifier in between) and
+// checks that what the object reports afterwards belongs to `second`: a decode
+// into a used receiver is still a decode, so stored bytes and identifier must
+// follow it (stale caches show up here).
+func (m *mon) reuse(j *judge, obj any, first, second []byte, canon bool, ident func(any) []byte, want []byte) {
+	t := reflect.TypeOf(obj)
+	if t == nil || t.Kind() != reflect.Pointer || bytes.Equal(first, second) {
+		return
+	}
+	p := reflect.New(t.Elem()).Interface()
+	if _, err := gcbor.Decode(first, p); err != nil {
+		m.c.Count("reuse_first_decode_rejected", 1)
+		return
+	}
+	_ = ident(p)
+	if _, err := gcbor.Decode(second, p); err != nil {
+		m.c.Count("reuse_second_decode_rejected", 1)
+		return
+	}
+	m.c.Count("reuse_checks", 1)
+	T := typeName(p)
+	if cb, ok := p.(cborer); ok {
+		j.eq("reuse-Cbor", T, cb.Cbor(), second, canon, "stored bytes after decoding a second input into the same object")
+	}
+	j.eq("reuse-Id", T, ident(p), want, canon, "identifier after decoding a second input into the same object")
+}
+
 // standalone objects ----------------------------------------------------
 
 type object struct {
@@ -504,6 +533,16 @@ func (m *mon) checkObject(o *object, v variant, r *core.Rand) {
 			hh := hdr.Hash()
 			j.eq("Hash", hT, hh.Bytes(), j.headerHash(bt, x), ident, "header hash")
 			j.eq("reencode", hT, encode(hdr), x, ident, "header")
+			hid := func(p any) []byte {
+				if h, ok := p.(ledger.BlockHeader); ok {
+					v := h.Hash()
+					return v.Bytes()
+				}
+				return nil
+			}
+			ib := o.node.Encode()
+			m.reuse(j, hdr, ib, x, false, hid, j.headerHash(bt, x))
+			m.reuse(j, hdr, x, ib, true, hid, j.headerHash(bt, ib))
 		})
 		m.done(j, true)
 	case "tx":
@@ -566,6 +605,18 @@ func (m *mon) checkObject(o *object, v variant, r *core.Rand) {
 			j.eq("Cbor", tT, tx.Cbor(), x, ident, "transaction")
 			j.eq("reencode", tT, encode(tx), x, ident, "transaction")
 			j.components(tx, x, &gt, ot, blockx.IsByron(bt))
+			tid := func(p any) []byte {
+				if t, ok := p.(ledger.Transaction); ok {
+					v := t.Hash()
+					return v.Bytes()
+				}
+				return nil
+			}
+			ib := o.node.Encode()
+			if in, err := cborx.ParseExact(ib); err == nil && !blockx.IsByron(bt) {
+				m.reuse(j, tx, ib, x, false, tid, h256(gt.Body.Slice(x)))
+				m.reuse(j, tx, x, ib, true, tid, h256(in.Items[0].Slice(ib)))
+			}
 		})
 		m.done(j, true)
 	case "body":
@@ -587,6 +638,16 @@ func (m *mon) checkObject(o *object, v variant, r *core.Rand) {
 			id := body.Id()
 			j.eq("Id", bT, id.Bytes(), h256(x), ident, "body Id() vs blake2b256(input)")
 			j.eq("reencode", bT, encode(body), x, ident, "body")
+			bid := func(p any) []byte {
+				if b, ok := p.(ledger.TransactionBody); ok {
+					v := b.Id()
+					return v.Bytes()
+				}
+				return nil
+			}
+			ibb := o.node.Encode()
+			m.reuse(j, body, ibb, x, false, bid, h256(x))
+			m.reuse(j, body, x, ibb, true, bid, h256(ibb))
 			if on := tree.MapGet(1); on != nil {
 				outs := body.Outputs()
 				if len(outs) == len(on.Items) {
